@@ -262,14 +262,18 @@ var (
 	journals  = map[string]*journalFile{}
 )
 
-func recordFail(prop, test string, c interface{}, o *Outcome) {
+func recordFail(prop, test string, c interface{}, o *Outcome) { recordFailAs(prop, test, test, c, o) }
+
+// recordFailAs writes the failing case under the name of the job that found it (fileTest) while the recorded
+// test - the function that replays it - may be another one (a fuzz target records the plain test of its property).
+func recordFailAs(prop, fileTest, test string, c interface{}, o *Outcome) {
 	dir := os.Getenv("VERIF_OUT")
 	if dir == "" {
 		return
 	}
 	raw, _ := json.Marshal(c)
 	b, _ := json.MarshalIndent(&replayFile{Property: prop, Test: test, Case: raw, Signature: o.Fail.Signature, Message: o.Fail.Message, Info: o.Info}, "", " ")
-	writeAtomic(filepath.Join(dir, fmt.Sprintf("fail-%s-%s.json", test, Shard())), b)
+	writeAtomic(filepath.Join(dir, fmt.Sprintf("fail-%s-%s.json", fileTest, Shard())), b)
 }
 
 // ---------------------------------------------------------------------------
@@ -503,6 +507,35 @@ func (p Prop[C]) Main(t *testing.T) {
 			st.Flush()
 			rt.Fatalf("%s: %s", o.Fail.Signature, o.Fail.Message)
 		}
+	})
+}
+
+// Fuzz runs the same generator and oracle under Go's coverage-guided fuzzer: the fuzzer's bytes are the generator's
+// random stream (rapid.MakeFuzz), so what it mutates are the generator's decisions. A failing case is recorded as JSON
+// exactly like in Main (and replays through the plain test p.Test); the crasher file that the Go fuzzer writes is not
+// needed. before is called with the *testing.T of every execution (the checks keep it in a package variable).
+func (p Prop[C]) Fuzz(f *testing.F, name string, before func(*testing.T)) {
+	f.Add([]byte{})
+	f.Add([]byte("0123456789abcdef0123456789abcdef0123456789abcdef0123456789abcdef"))
+	target := rapid.MakeFuzz(func(rt *rapid.T) {
+		c := p.Gen(rt)
+		Journal(p.ID, name, c)
+		done := Watch(p.ID, name, c)
+		o := p.Run(c)
+		done()
+		if o.Fail != nil {
+			if KnownOpen(o.Fail.Signature) {
+				return
+			}
+			recordFailAs(p.ID, name, p.Test, c, o)
+			rt.Fatalf("%s: %s", o.Fail.Signature, o.Fail.Message)
+		}
+	})
+	f.Fuzz(func(t *testing.T, data []byte) {
+		if before != nil {
+			before(t)
+		}
+		target(t, data)
 	})
 }
 
